@@ -8,7 +8,7 @@ THEOREMS = ['C10_cyclepoints', 'C10_argext', 'C10_midpoints', 'C10_shape', 'C10_
 RULE = ("generated signals of all families x option sets of C01 x both burst methods x both centrings; (a) amplitude: compute_features(a*x) against compute_features(x) for "
         "a = 2^k, k in [-40, 40] (exact in float64; a quarter of the cases on int16 / int32 / int64 signals with k in [1, 4]): every sample index, duration, symmetry, consistency, monotonicity, amplitude fraction, burst fraction and label equal, "
         "every voltage feature and band_amp multiplied by a exactly; (b) rate: compute_features(x, c*fs, c*f_range) against compute_features(x, fs, f_range) for c = 2^k, "
-        "k in [-3, 6] and, for 40% of the rate cases, the one or two halvings that make c*fs fractional ( runs that the neurodsp filter validation refuses for its absolute-frequency limits are counted as kernel-refused), filter length in cycles: identical tables; one case in four also through ONE Bycycle object fitted before and after the rescaling (the array rescaled in place / the rate and band changed, settings untouched); distinct = distinct (signal, options, factor); non-trivial = >= 3 cycles and factor != 1")
+        "k in [-3, 6] (plus slow 0.25-0.38 Hz rhythms sampled at 32 / 64 Hz, band edges below 1 Hz, c = 4..32) and, for 40% of the rate cases, the one or two halvings that make c*fs fractional ( runs that the neurodsp filter validation refuses for its absolute-frequency limits are counted as kernel-refused), filter length in cycles: identical tables; one case in four also through ONE Bycycle object fitted before and after the rescaling (the array rescaled in place / the rate and band changed, settings untouched); distinct = distinct (signal, options, factor); non-trivial = >= 3 cycles and factor != 1")
 ASSUMPTIONS = ["exact commutation of float64 arithmetic with power-of-two factors is a runtime fact observed on the implementation (no overflow / subnormals in the tested range)",
                "homogeneity of the neurodsp kernels (filter linear, amp_by_time homogeneous, dual threshold scale free, dependence on fs and f only through ratios) is E5: assumed in the theorems, observed here"]
 BATCH = 50
@@ -44,6 +44,14 @@ def generate(ctx):
                           center=str(rng.choice(['peak', 'trough'])), method=method, th=th, family=s['family'], pres=implutil.pick_presentation(rng, 0.3), reuse=bool(rng.random() < 0.25), obj=bool(i % 4 == 1)))
         if kind == 'amp' and rng.random() < 0.25:      # integer-typed recordings (ADC counts): factor 2^k, k in 1..4, stays in range
             cases[-1].update(dtype=str(rng.choice(['int16', 'int32', 'int64', '>i2', '>i4', '<u2', '>u2'])), k=int(rng.integers(1, 5)))     # (byte-swapped recordings included)
+    for j in range(ctx.scale(60, 600)):
+        # SLOW rhythms (sleep slow oscillations, respiration): a noisy 0.25-0.38 Hz wave sampled at 32 / 64 Hz, band (0.25, 1) Hz - periods of
+        # seconds, so anything in the chain that is a fixed number of SECONDS rather than of cycles (a filter length, a pad) shows when the unit changes
+        r = ctx.sub_rng(100000 + j)
+        fs = float(r.choice([32, 64])); n = int(r.choice([2048, 3072, 4096]))
+        x = np.sin(2 * np.pi * r.uniform(0.25, 0.38) * np.arange(n) / fs + r.uniform(0, 6)) + 0.3 * r.standard_normal(n)
+        cases.append(dict(kind='rate', k=int(r.integers(2, 6)), sig=proto.arr2hex(x), fs=fs, f_range=[0.25, 1.0], n_cycles=None,
+                          boundary=None, center=str(r.choice(['peak', 'trough'])), method='cycles', th=None, family='slow', pres='array', reuse=False, obj=False))
     return cases
 
 _objs = {}
